@@ -18,7 +18,6 @@ Definition added_fks (c : change) : list fkey :=
   | AddTable _ fks => fks
   | DropTable _ _ => []
   | ModifyTable _ tcs => flat_map tc_added tcs
-  | _ => []
   end.
 Definition tc_removes (s : nat) (tc : tchange) : bool :=
   match tc with DropFK f => f_sym f =? s | ModifyFK from _ => f_sym from =? s | _ => false end.
@@ -28,7 +27,6 @@ Definition removes (child s : nat) (c : change) : bool :=
   | AddTable _ _ => false
   | DropTable t _ => t_name t =? child
   | ModifyTable t tcs => (t_name t =? child) && existsb (tc_removes s) tcs
-  | _ => false
   end.
 (* the symbols of the live keys a table change drops, and the keys (child, symbol) a change drops explicitly *)
 Definition tc_rm (tc : tchange) : list nat :=
@@ -64,14 +62,13 @@ Proof.
   - destruct (fk_live _ _ _); inversion E; reflexivity.
   - destruct (mem _ _); [|discriminate]. destruct (fk_live _ _ _); inversion E; reflexivity.
   - inversion E; reflexivity.
-  - inversion E; reflexivity.
 Qed.
 
 Lemma step_tabs c x c1 n :
   replay1 c x = Some c1 ->
   (In n (c_tabs c1) <-> (In n (c_tabs c) \/ In n (adds x)) /\ ~ In n (drops x)).
 Proof.
-  destruct x as [t fks|t fks|t tcs|o|o]; simpl; intros H; try (inversion H; subst; tauto).
+  destruct x as [t fks|t fks|t tcs]; simpl; intros H.
   - destruct (mem (t_name t) (c_tabs c)); [discriminate|].
     destruct (forallb _ fks); inversion H; subst; simpl. tauto.
   - destruct (negb (mem (t_name t) (c_tabs c))); [discriminate|].
@@ -102,7 +99,7 @@ Proof.
   - destruct (replay_tc t c tc) as [c1|] eqn:E; [|discriminate].
     destruct (IH c1 c' e H He) as [[H1 H2]|[f [Hf Hfe]]].
     2:{ right. exists f. split; [|exact Hfe]. simpl. apply in_or_app. right. exact Hf. }
-    destruct tc as [f|f|from to|k|kd e0]; simpl in E; try (inversion E; subst; left; split; [exact H1|exact H2]).
+    destruct tc as [f|f|from to|k]; simpl in E.
     + destruct (mem _ _); inversion E; subst; simpl in *.
       apply in_app_or in H1. destruct H1 as [H1|[<-|[]]].
       * left. split; [exact H1|exact H2].
@@ -124,6 +121,7 @@ Proof.
         rewrite H2, orb_false_r. apply Nat.eqb_eq in Et. apply Nat.eqb_neq.
         intros Hs. apply Hk. split; [exact Et|symmetry; exact Hs].
       * right. exists to. split; [left; reflexivity|reflexivity].
+    + inversion E; subst. left. split; [exact H1|exact H2].
 Qed.
 
 Lemma step_fks c x c1 e :
@@ -131,8 +129,7 @@ Lemma step_fks c x c1 e :
   (In e (c_fks c) /\ removes (fst (fst e)) (snd (fst e)) x = false) \/
   (exists f, In f (added_fks x) /\ e = fk_entry (nm x) f).
 Proof.
-  destruct x as [t fks|t fks|t tcs|o|o]; simpl; intros H He;
-    try (inversion H; subst; left; split; [exact He|reflexivity]).
+  destruct x as [t fks|t fks|t tcs]; simpl; intros H He.
   - destruct (mem (t_name t) (c_tabs c)); [discriminate|].
     destruct (forallb _ fks); inversion H; subst; simpl in *.
     apply in_app_or in He. destruct He as [He|He]; [left; split; [exact He|reflexivity]|].
@@ -203,7 +200,7 @@ Qed.
 Lemma removes_rm_keys child s x :
   removes child s x = true -> (exists t fks, x = DropTable t fks /\ t_name t = child) \/ In (child, s) (rm_keys x).
 Proof.
-  destruct x as [t fks|t fks|t tcs|o|o]; simpl; intros H; try discriminate.
+  destruct x as [t fks|t fks|t tcs]; simpl; intros H; [discriminate| |].
   - left. exists t, fks. split; [reflexivity|apply Nat.eqb_eq; exact H].
   - right. apply andb_true_iff in H. destruct H as [H1 H2]. apply Nat.eqb_eq in H1. subst child.
     apply in_map. apply existsb_exists in H2. destruct H2 as [tc [Htc Hr]].
@@ -221,8 +218,7 @@ Proof.
   induction tcs as [|tc tcs IH]; intros c Hf Hn Hl; simpl; [eexists; reflexivity|].
   assert (Hstep : exists c1, replay_tc t c tc = Some c1 /\ c_tabs c1 = c_tabs c /\
             (forall s p, In (t, s, p) (c_fks c) -> ~ In s (tc_rm tc) -> In (t, s, p) (c_fks c1))).
-  { destruct tc as [f|f|from to|k|kd e0]; simpl;
-      try (eexists; split; [reflexivity|]; split; [reflexivity|]; intros s p H _; exact H).
+  { destruct tc as [f|f|from to|k]; simpl.
     - assert (Hm : mem (t_name (f_ref f)) (c_tabs c) = true)
         by (apply mem_In; apply Hf; simpl; left; reflexivity).
       rewrite Hm. eexists; split; [reflexivity|]. split; [reflexivity|].
@@ -235,7 +231,8 @@ Proof.
       rewrite Hm. destruct (Hl (f_sym from)) as [p Hp]; [simpl; left; reflexivity|].
       rewrite (fk_live_true t (f_sym from) c p Hp). eexists; split; [reflexivity|]. split; [reflexivity|].
       intros s q H Hs. simpl. apply in_or_app. left. apply filter_key_in. split; [exact H|]. simpl.
-      intros [_ E]. apply Hs. left. symmetry. exact E. }
+      intros [_ E]. apply Hs. left. symmetry. exact E.
+    - eexists; split; [reflexivity|]. split; [reflexivity|]. intros s p H _. exact H. }
   destruct Hstep as [c1 [E1 [Et Hk]]]. rewrite E1. apply IH.
   - intros f Hin. rewrite Et. apply Hf. simpl. apply in_or_app. right. exact Hin.
   - simpl in Hn. apply NoDup_app_r in Hn. exact Hn.
@@ -276,13 +273,14 @@ Proof.
   induction tcs as [|tc tcs IH]; intros c c' e H He Hr; simpl in H; [inversion H; subst; exact He|].
   destruct (replay_tc t c tc) as [c1|] eqn:E; [|discriminate].
   apply (IH c1 c' e H).
-  - simpl in Hr. destruct tc as [f|f|from to|k|kd e0]; simpl in E; try (inversion E; subst; exact He).
+  - simpl in Hr. destruct tc as [f|f|from to|k]; simpl in E.
     + destruct (mem _ _); inversion E; subst; simpl. apply in_or_app. left. exact He.
     + destruct (fk_live _ _ _); inversion E; subst; simpl. apply filter_key_in. split; [exact He|].
       intros [E1 E2]. rewrite E1, Nat.eqb_refl in Hr. simpl in Hr. rewrite E2, Nat.eqb_refl in Hr. discriminate.
     + destruct (mem _ _); [|discriminate]. destruct (fk_live _ _ _); inversion E; subst; simpl.
       apply in_or_app. left. apply filter_key_in. split; [exact He|].
       intros [E1 E2]. rewrite E1, Nat.eqb_refl in Hr. simpl in Hr. rewrite E2, Nat.eqb_refl in Hr. discriminate.
+    + inversion E; subst. exact He.
   - simpl in Hr. destruct (fst (fst e) =? t); [|reflexivity]. simpl in *.
     apply orb_false_iff in Hr. tauto.
 Qed.
@@ -290,7 +288,7 @@ Qed.
 Lemma step_fks_lower c x c1 e :
   replay1 c x = Some c1 -> In e (c_fks c) -> removes (fst (fst e)) (snd (fst e)) x = false -> In e (c_fks c1).
 Proof.
-  destruct x as [t fks|t fks|t tcs|o|o]; simpl; intros H He Hr; try (inversion H; subst; exact He).
+  destruct x as [t fks|t fks|t tcs]; simpl; intros H He Hr.
   - destruct (mem (t_name t) (c_tabs c)); [discriminate|].
     destruct (forallb _ fks); inversion H; subst; simpl. apply in_or_app. left. exact He.
   - destruct (negb (mem (t_name t) (c_tabs c))); [discriminate|].
@@ -355,7 +353,7 @@ Qed.
 Lemma in_adds_iff n l : In n (flat_map adds l) <-> exists t fks, In (AddTable t fks) l /\ t_name t = n.
 Proof.
   rewrite in_flat_map. split.
-  - intros [x [Hx Hn]]. destruct x as [t fks| | | |]; simpl in Hn; try (destruct Hn; fail).
+  - intros [x [Hx Hn]]. destruct x as [t fks| |]; simpl in Hn; try (destruct Hn; fail).
     destruct Hn as [<-|[]]. exists t, fks. split; [exact Hx|reflexivity].
   - intros [t [fks [Hx <-]]]. exists (AddTable t fks). split; [exact Hx|left; reflexivity].
 Qed.
@@ -363,7 +361,7 @@ Qed.
 Lemma in_drops_iff n l : In n (flat_map drops l) <-> exists t fks, In (DropTable t fks) l /\ t_name t = n.
 Proof.
   rewrite in_flat_map. split.
-  - intros [x [Hx Hn]]. destruct x as [|t fks| | |]; simpl in Hn; try (destruct Hn; fail).
+  - intros [x [Hx Hn]]. destruct x as [|t fks|]; simpl in Hn; try (destruct Hn; fail).
     destruct Hn as [<-|[]]. exists t, fks. split; [exact Hx|reflexivity].
   - intros [t [fks [Hx <-]]]. exists (DropTable t fks). split; [exact Hx|left; reflexivity].
 Qed.
@@ -415,7 +413,7 @@ Section Split.
       - right. apply (after_tabs_lower pre c st _ Hst); [left; exact H1|apply Hnodrop_fk; exact Hf].
       - right. apply (after_tabs_lower pre c st _ Hst); [right; exact H1|apply Hnodrop_fk; exact Hf].
       - left. exact H1. }
-    destruct x as [t fks|t fks|t tcs|o|o]; try (simpl; eexists; reflexivity).
+    destruct x as [t fks|t fks|t tcs].
     - (* AddTable *)
       assert (E : exists c', replay1 st (AddTable t fks) = Some c').
       { apply step_add_ok.
